@@ -4,4 +4,4 @@ package server
 
 import "net"
 
-func verifFrameSink(net.Interface, []byte) bool { return false }
+func verifFrameSink(net.Interface, []byte) (bool, error) { return false, nil }
